@@ -11,7 +11,7 @@ NameSeq == << "geod_wgs84", "geod_obj", "geodex_wgs84", "geodex_obj", "geodexact
               "elliptic_obj", "normgrav_wgs84", "harmonic_obj", "circle_obj", "geoid_ts", "utmups_fwd", "mgrs_fwd", "osgb_fwd",
               "dms_codec", "gridcodes", "azeq_obj", "gnomonic_obj", "cassini_obj", "dst_obj",
               "gravmodel_obj", "gravcircle_obj", "gravmodel_circle", "magmodel_obj", "magcircle_obj", "magmodel_circle",
-              "geod_line_make", "geodex_line_make", "rhumb_line_make", "ps_obj", "tmx_obj", "ell_obj", "normgrav_obj" >>
+              "geod_line_make", "geodex_line_make", "rhumb_line_make", "ps_obj", "tmx_obj", "ell_obj", "normgrav_obj", "geoid_ts_bilinear" >>
 N == Len(NameSeq)
 ASSUME {NameSeq[i] : i \in 1..N} = Names /\ N = Cardinality(Names)
 
